@@ -44,7 +44,7 @@ func convertBits(data []byte, from, to uint, pad bool) ([]byte, error) {
 		if int(b)>>from != 0 {
 			return nil, fmt.Errorf("invalid data range")
 		}
-		acc = acc<<from | int(b)
+		acc = (acc<<from | int(b)) & ((1 << (from + to - 1)) - 1)
 		bits += from
 		for bits >= to {
 			bits -= to
